@@ -264,6 +264,13 @@ def dynamic(ctx, exe, tr):
 
     sc = pipeline.Scratch("c19")
     try:
+        # synthetic inputs for option-table / override paths the corpus rarely reaches: a Qt SIGNAL/SLOT macro followed by
+        # by-reference declarations (the Qt override must restore every option it touched), C++/CLI `for each`
+        extra_src = [("qt-then-byref.cpp", "void q()\n{\n    connect(a, SIGNAL(x(int &)), b, SLOT(y(int &)));\n}\nvoid r(int  &  z, const T   & w, int  &);\n"
+                                           "int  &  h(int   & u);\nvoid q2()\n{\n    emit s(SLOT(y(T  &)));\n}\nvoid r2(T   &   v, T &);\n"),
+                     ("for-each.cpp", "void fe(array<int> ^ arr)\n{\n    for    each (int x in arr)\n    {\n        use(x);\n    }\n    for  each(int y in arr) { use(y); }\n}\n")]
+        ecfg = sc.cfg(None, {})
+        pairs = [("synthetic:" + n, ecfg, sc.write(t, name=n), "CPP") for n, t in extra_src] + pairs
         jobs = make_jobs(ctx, sc, pairs, allopts, modes)
         ctx.log("runs:", len(jobs), "on", len(pairs), "(config, input) pairs")
         st = Stats()
